@@ -21,7 +21,7 @@ from . import roundtrip_bind as rb
 from .policy import roundtrip_variant
 
 ALL_FAULTS = ["none", "unknownFirst", "unknownLast", "unknownAttr", "badValue", "childInPrimitive", "missingReq"]
-CAT_ALL = "{" + ",".join(str(i) for i in range(1, 28)) + "}"
+CAT_ALL = "{" + ",".join(str(i) for i in range(1, 30)) + "}"
 PARSE_ERRORS = (ParserError, ConverterError, XmlContextError, XmlHandlerError)
 STRICT = {"unknownProps": True, "unknownAttrs": True, "convWarnings": True}
 
